@@ -7,8 +7,8 @@
 From Coq Require Import List NArith.
 From DSD Require Import Base.Str Base.Errors Base.Val Model.Peg Model.DispatchPeg
   Proofs.PegMono Proofs.PegStd Proofs.PegDoc Proofs.C13Base Proofs.C13Doc Proofs.PilLex Proofs.C13Lex
-  Proofs.C13Dl Proofs.C13Ms Proofs.C13Sl Proofs.C13Cd Proofs.C13Kc Proofs.C13Rx Proofs.C13Sc Proofs.C13Rej
-  Proofs.C13Full.
+  Proofs.C13Dl Proofs.C13Ms Proofs.C13Sl Proofs.C13Cd Proofs.C13Kc Proofs.PegNum Proofs.C13Kc2 Proofs.C13Rx Proofs.C13Ib Proofs.C13Sc Proofs.C13Rej
+  Proofs.C13Full Proofs.PegTerm Proofs.C13Fuel Proofs.PegShape Proofs.PegCover Proofs.C13Cover.
 From DSDGen Require Import PilGrammar.
 Import ListNotations.
 
@@ -231,16 +231,54 @@ Theorem C13_words_over_lexical_classes : forallb word_class_ok pil_nodes = true.
 Proof. exact pil_words_over_classes. Qed.
 Print Assumptions C13_words_over_lexical_classes.
 
+(* Round trip, reaction WITH rate information: [ [NAME (=|:)] RATE [+/- (RATE|inf)] (/M|/mM|/uM|/nM|/pM)* /(s|m|h) ],
+   RATE in integer, decimal or scientific form, units of every arity *)
+Theorem C13_roundtrip_reaction_infobox : forall s y i,
+  rx_stmt_ok s -> rx_layout_ok y -> infobox_ok i -> pil_body_ok (rxi_render s y i) [rxi_tree s i].
+Proof. exact roundtrip_reaction_infobox. Qed.
+Print Assumptions C13_roundtrip_reaction_infobox.
+
+Theorem C13_roundtrip_reaction_infobox_parse_string : forall s y i b E,
+  rx_stmt_ok s -> rx_layout_ok y -> infobox_ok i -> blanks pil_ws b -> stmt_end E [] ->
+  no_tab (b ++ rxi_render s y i ++ E) ->
+  exists f0, forall f, f0 <= f -> parse_pil_fuel f (b ++ rxi_render s y i ++ E) = vals [rxi_tree s i].
+Proof. exact roundtrip_reaction_infobox_parse. Qed.
+Print Assumptions C13_roundtrip_reaction_infobox_parse_string.
+
+(* Round trip, kernel-notation complex WITH concentration  @ (initial|i|constant|c) NUMBER (M|mM|uM|nM|pM) *)
+Theorem C13_roundtrip_kernel_concentration : forall s c full b E k,
+  blanks pil_ws b -> stmt_end E k -> conc_ok c -> kc_stmt_ok s (conc_text c ++ E ++ k) ->
+  evals pil_nodes full pil_stmt true (At (b ++ kcc_render s c ++ E ++ k)) (POk (after pil_ws k) [kcc_tree s c]).
+Proof. exact roundtrip_kernel_concentration. Qed.
+Print Assumptions C13_roundtrip_kernel_concentration.
+
+Theorem C13_roundtrip_kernel_concentration_parse_string : forall s c b E,
+  blanks pil_ws b -> stmt_end E [] -> conc_ok c -> kc_stmt_ok s (conc_text c ++ E) -> no_tab (b ++ kcc_render s c ++ E) ->
+  exists f0, forall f, f0 <= f -> parse_pil_fuel f (b ++ kcc_render s c ++ E) = vals [kcc_tree s c].
+Proof. exact roundtrip_kernel_concentration_parse. Qed.
+Print Assumptions C13_roundtrip_kernel_concentration_parse_string.
+
+(* Rejection, unbalanced kernel brackets at top level: a complete pattern followed (after blanks) by an unmatched
+   `)` or by a `(` that is not attached to a name; every statement alternative refuses it *)
+Theorem C13_reject_unbalanced_kernel : forall s bT d junk pls b,
+  (d = 41%N \/ d = 40%N) ->
+  blanks pil_ws b -> blanks pil_ws bT -> kc_stmt_ok s (bT ++ d :: junk) -> Forall pil_blank_line pls ->
+  is_prefix kw_state (kc_n0 s :: kc_ns s) = false -> is_prefix kw_macrostate (kc_n0 s :: kc_ns s) = false ->
+  no_tab (concat pls ++ b ++ kc_text s (bT ++ d :: junk)) ->
+  exists f0, forall f, f0 <= f -> parse_pil_fuel f (concat pls ++ b ++ kc_text s (bT ++ d :: junk)) = err eParse.
+Proof. exact reject_unbalanced_kernel. Qed.
+Print Assumptions C13_reject_unbalanced_kernel.
+
 (* ---- full statements not yet proved (kept visible; listed under `partial` in the evidence) ---- *)
 
-(* reaction with rate information [NAME (=|:) RATE [+/- (RATE|inf)] /UNIT.../TIME] *)
-Definition C13_roundtrip_reaction_infobox_full : Prop := forall s y i,
-  rx_stmt_ok s -> rx_layout_ok y -> infobox_ok i -> pil_body_ok (rxi_render s y i) [rxi_tree s i].
-
-(* kernel-notation complex with concentration  @ (initial|i|constant|c) NUMBER UNIT *)
-Definition C13_roundtrip_kernel_concentration_full : Prop := forall s c full b E k,
-  blanks pil_ws b -> stmt_end E k -> kc_stmt_ok s (conc_text c ++ E ++ k) -> conc_ok c ->
-  evals pil_nodes full pil_stmt true (At (b ++ kcc_render s c ++ E ++ k)) (POk (after pil_ws k) [kcc_tree s c]).
+(* an opening bracket attached to a name and never closed, `x = a b( c` : refused (the loop alternative fails at the
+   missing `)`, the name is then read as a plain domain and the pattern stops at `(`) *)
+Definition C13_reject_unclosed_loop_full : Prop := forall s n0 ns (inner : list item) pls b E,
+  kc_stmt_ok s (n0 :: ns ++ 40%N :: items_text inner E) -> memc n0 idch = true -> all_in idch ns ->
+  Forall pil_blank_line pls -> blanks pil_ws b -> stmt_end E [] ->
+  no_tab (concat pls ++ b ++ kc_text s (32%N :: n0 :: ns ++ 40%N :: items_text inner E)) ->
+  exists f0, forall f, f0 <= f ->
+    parse_pil_fuel f (concat pls ++ b ++ kc_text s (32%N :: n0 :: ns ++ 40%N :: items_text inner E)) = err eParse.
 
 (* layouts with tabs: every *_parse_string theorem above without its `no_tab` hypothesis (parse_string expands
    tabs to spaces before parsing; the expanded text is again a rendering with other blank runs), e.g. *)
@@ -248,12 +286,38 @@ Definition C13_roundtrip_dl_domain_tabs_full : Prop := forall s y b E,
   dl_stmt_ok s -> dl_layout_ok y -> blanks pil_ws b -> stmt_end E [] ->
   exists f0, forall f, f0 <= f -> parse_pil_fuel f (b ++ dl_render s y ++ E) = vals [dl_tree s].
 
-(* rejection of unbalanced kernel brackets, for all patterns *)
-Definition C13_reject_unbalanced_kernel_full : Prop := forall s pls b E junk,
-  kc_stmt_ok s (41%N :: junk) -> Forall pil_blank_line pls -> blanks pil_ws b -> stmt_end E [] ->
-  no_tab (concat pls ++ b ++ kc_render s ++ 41%N :: junk ++ E) ->
-  exists f0, forall f, f0 <= f -> parse_pil_fuel f (concat pls ++ b ++ kc_render s ++ 41%N :: junk ++ E) = err eParse.
+(* Termination within the default fuel: parse_pil (fuel (|expandtabs text| + 2) * |table|) never
+   answers OutOfFuel, for any text whatsoever.  Proved generically (Proofs/PegTerm.v): a
+   nullability table, a rank table that decreases along every call that can happen at the same
+   input position (absence of left recursion; the loop bodies and ignorables are non-nullable) and
+   a StringStart-freedom table are computed from the regenerated node table and validated by
+   computation; fuel >= rem(position) * |table| + rank + 3 then never runs out. *)
+Theorem C13_default_fuel_suffices : forall text, parse_pil text <> err eFuel.
+Proof. exact pil_default_fuel_suffices. Qed.
+Print Assumptions C13_default_fuel_suffices.
 
-(* the default fuel of parse_pil suffices for every text (termination of the interpreter within
-   (|text| + 2) * |table| nested calls); observed on every correspondence case, not proved *)
-Definition C13_default_fuel_suffices_full : Prop := forall text, parse_pil text <> err eFuel.
+(* hence every statement above of the form "for all sufficiently large fuel the answer is v"
+   is a statement about parse_pil itself (the operation run in the correspondence) *)
+Theorem C13_default_fuel_gives_eventual_result : forall text v,
+  (exists f0, forall f, f0 <= f -> parse_pil_fuel f text = v) -> parse_pil text = v.
+Proof. exact pil_default_is_limit. Qed.
+Print Assumptions C13_default_fuel_gives_eventual_result.
+
+(* no_skipped_text (DESIGN C13): a successful parse ends at the end of the input, and the whole
+   (tab-expanded) text is a concatenation of `piece`s: strings matched by a terminal of the table
+   (a literal, a Word / White run, a line end, a comment) or blanks skipped by the preParse of a node
+   that skips whitespace (characters of that node's whitespace set).  The interpreter cannot
+   silently drop text.  Generic in the table (Proofs/PegCover.v, parse_cov: for every node and every
+   start position). *)
+Theorem C13_no_skipped_text : forall fuel text p toks,
+  parse_string_fuel pil_grammar fuel text = POk p toks -> p = Past /\ pieces pil_nodes (expandtabs text).
+Proof. exact pil_no_skipped_text. Qed.
+Print Assumptions C13_no_skipped_text.
+
+(* the token language of a table: whatever a node returns is generated by the text-erased grammar
+   (Proofs/PegShape.v; the tool behind "every returned tree has shape ..." statements, used for the
+   reader's line shape in Proofs/PilShape.v: pil_grammar_shape) *)
+Theorem C13_token_language_sound : forall g full f i cp p p' t,
+  parse g full f i cp p = POk p' t -> G g i t.
+Proof. exact parse_gen. Qed.
+Print Assumptions C13_token_language_sound.
